@@ -54,7 +54,7 @@ HIST_NOTE = ("Trusted base: Go toolchain; the reference model (last successful i
 CHECKS.update({
  "C01": dict(engine="histmc", cat="model_checking", ref="§2.1, §3 C01",
    technique="explicit-state BFS to closure over (disk, reference-model) states, each transition executed by the real code, branching over every topological-sort iteration order and (flagged programs) every iteration order of spok's own task/variable maps with deviation bound 1; skip-soundness invariant on every run transition",
-   text="For each of 26 programs (literal/glob/task dependencies, shared files, file-less tasks, a file listed twice, a deletable dependency, task commands that rewrite or generate other tasks' inputs, declared outputs, symbolic links as inputs, literal names with pattern characters, task names like 'version', a task without commands, a spokfile that is edited between runs incl. dependency lists; thorough: plus every 1-task program and every 2-task program over {a.txt, *.src, sub/*.src}) the full state graph under the op alphabet {edit/create/revert/delete files, run any request list with/without force with any failing set, run with an unwritable cache file, remove cache} is explored to closure, i.e. all finite histories; every run op is also replayed through the built binary. For the programs named in the evidence every iteration of SpokFile.Tasks / SpokFile.Vars inside file/file.go is a choice point as well (controlled-iteration overlay; at most one iteration per invocation leaves sorted order). Every reported skip must match the model's last success.",
+   text="For each of 29 programs (literal/glob/task dependencies, a pattern that matches a directory, shared files, file-less tasks, a file listed twice, a deletable dependency, task commands that rewrite or generate other tasks' inputs, declared outputs, symbolic links as inputs, literal names with pattern characters, task names like 'version', a task without commands, a spokfile that is edited between runs incl. dependency lists; thorough: plus every 1-task program and every 2-task program over {a.txt, *.src, sub/*.src}) the full state graph under the op alphabet {edit/create/revert/delete files, run any request list with/without force with any failing set, run with an unwritable cache file, remove cache} is explored to closure, i.e. all finite histories; every run op is also replayed through the built binary. For the programs named in the evidence every iteration of SpokFile.Tasks / SpokFile.Vars inside file/file.go is a choice point as well (controlled-iteration overlay; at most one iteration per invocation leaves sorted order). Every reported skip must match the model's last success.",
    note=HIST_NOTE),
  "C02": dict(engine="histmc", cat="model_checking", ref="§2.1, §3 C02",
    technique="same explicit-state closure as C01 with the converse oracle (unchanged since last success => skipped, file-less tasks always run)",
@@ -92,15 +92,15 @@ CHECKS.update({
    note=BIN_NOTE + " Relative outputs are read relative to the spokfile directory; runs are from the project root."),
  "C13": dict(engine="cfgmc-c13", cat="model_checking", ref="§2.4, §3 C13",
    technique="exhaustive enumeration of variable name x value x kind configurations through the built binary (--vars, template task, environment task), compared with textual substitution",
-   text="Names {unset, HOME, ambient, .env, both} x 17 string values (blanks, $x, braces, =, #, quote, empty, non-ASCII, tab) / join part lists from root and nested cwd / exec with surrounding white space, terminal escapes, output on standard error only / failing exec, with and without a second variable, declared above, between or below the tasks, re-bound by an earlier command of the same task, of 128 KiB and more, empty-but-set, defined twice by the same exec text: --vars value, the command text after {{.NAME}} substitution and the value of $NAME seen by the command must all be the spokfile value.",
+   text="Names {unset, HOME, ambient, .env, both} x 17 string values (blanks, $x, braces, =, #, quote, empty, non-ASCII, tab) / join part lists from root and nested cwd / exec with surrounding white space, terminal escapes, output on standard error only / failing exec, with and without a second variable, declared above, between or below the tasks, re-bound by an earlier command of the same task, of 128 KiB and more, empty-but-set, defined twice by the same exec text, referenced in six other spellings of the template language ({{ .NAME }}, {{- .NAME -}}, {{$.NAME}}, printf, pipeline, with), a spokfile without any variable whose command is a template: --vars value, the command text after {{.NAME}} substitution and the value of $NAME seen by the command must all be the spokfile value.",
    note=BIN_NOTE),
  "C19": dict(engine="cfgmc-c19", cat="model_checking", ref="§2.4, §3 C19",
    technique="full product of spokfile class x action x cwd x .gitignore x cache presence through the built binary between two whole-sandbox snapshots",
-   text="12 spokfile classes (valid canonical/unformatted, variables only, syntax error, three load errors, parses-but-does-not-load, absent, directory, symlink, dangling symlink) x 23 command lines x root/nested cwd x .gitignore x earlier cache, further the spokfile's permission bits x the process umask, a cache directory that cannot be created (.spok is a file / the project directory is read-only), sibling files of the spokfile (.orig, .bak, ~, .swp, .tmp, .rej), seven endings of an existing .gitignore, --init combined with --spokfile: every created/changed/removed path must be allowed by the action (.spok next to the spokfile; the spokfile's text, not its mode, for --fmt only when it parses and loads; cwd/spokfile and an appended .gitignore for --init).",
+   text="12 spokfile classes (valid canonical/unformatted, variables only, syntax error, three load errors, parses-but-does-not-load, absent, directory, symlink, dangling symlink) x 23 command lines x root/nested cwd x .gitignore x earlier cache, further the spokfile's permission bits x the process umask, a cache directory that cannot be created (.spok is a file / the project directory is read-only), sibling files of the spokfile (.orig, .bak, ~, .swp, .tmp, .rej), seven endings of an existing .gitignore, --init combined with --spokfile, a cache directory that is only partly there, the project inside a git work tree with its own .gitignore above: every created/changed/removed path must be allowed by the action (.spok next to the spokfile; the spokfile's text, not its mode, for --fmt only when it parses and loads; cwd/spokfile and an appended .gitignore for --init).",
    note=BIN_NOTE + " Timestamps are not part of a snapshot."),
  "C20": dict(engine="cfgmc-c20", cat="model_checking", ref="§2.4, §3 C20",
    technique="exhaustive enumeration of small programs x report/listing flags through the built binary, compared with a harness-owned side-effect log",
-   text="1-5 tasks x docstrings x default task x 0-2 commands (distinct stdout/stderr markers) x 0-2 variables x chain/independent x file dependencies, programs whose commands write 20 / 300 KiB to each stream, and programs with docstrings and values longer than a terminal line listed on pseudo terminals of 40-132 columns as well as into a pipe, runs of blanks in docstrings and values (compared exactly), background jobs, a skipped task after an executed one, --json without task names, --quiet with --init/--fmt/--clean: --json (first and repeated run) must be one JSON list of exactly the run's tasks in execution order with skipped flags and per-command text/stdout/stderr/status; --quiet stdout empty; --show/--vars complete, sorted, with docstrings/values; no arguments runs default or lists.",
+   text="1-5 tasks x docstrings x default task x 0-2 commands (distinct stdout/stderr markers) x 0-2 variables x chain/independent x file dependencies, programs whose commands write 20 / 300 KiB to each stream (incl. CRLF, lone CR, tabs, trailing blanks, escape sequences, non-ASCII text, an unterminated last line), a template action that is not a variable reference in every command, and programs with docstrings and values longer than a terminal line listed on pseudo terminals of 40-132 columns as well as into a pipe, runs of blanks in docstrings and values (compared exactly), background jobs, a skipped task after an executed one, --json without task names, --quiet with --init/--fmt/--clean: --json (first and repeated run) must be one JSON list of exactly the run's tasks in execution order with skipped flags and per-command text/stdout/stderr/status; --quiet stdout empty; --show/--vars complete, sorted, with docstrings/values; no arguments runs default or lists.",
    note=BIN_NOTE + " JSON field names are not prescribed: fields are recognised by type and content."),
 })
 
